@@ -5,7 +5,7 @@ import z3
 from sx import core as S, env as E, npshim, mat
 
 PROPERTY = "C12"
-REGIONS = ["constant-column-variable-plain", "coefficient-with-inexact-reciprocal", "queries-after-tighten", "bound-tightened", "crossed-bounds", "coef-magnitude>1-positive", "coef-magnitude>1-negative", "zero-coef", "symbolic-box", "negative-lower-bound"]
+REGIONS = ["narrow-storage-dtype", "constant-column-variable-plain", "coefficient-with-inexact-reciprocal", "queries-after-tighten", "bound-tightened", "crossed-bounds", "coef-magnitude>1-positive", "coef-magnitude>1-negative", "zero-coef", "symbolic-box", "negative-lower-bound"]
 BOUNDS = ("coefficient matrices up to 3x3 with entries in {-3..3} (curated + seeded; concrete because coefficient x bound products must stay linear); "
           "right-hand sides b symbolic |b|<=2^17; variable boxes symbolic inside [-32768,32767] (families: all boolean, one symbolic column, "
           "mixed, all symbolic); a symbolic in-box point x")
@@ -46,6 +46,11 @@ def instantiations(tier, seed):
             bx = bx[:j] + [[[0, 5], [-3, 2], "sym"][(k + j) % 3]] + bx[j + 1:]
         out.append({"A": A, "boxes": bx, "part": "rows", "first": "plain01"})
         out.append({"A": A, "boxes": bx, "part": "tighten", "first": "plain01", "warm": k % 2 == 0})
+    # storage dtype narrower than int64 (real runs only: SX's integers are unbounded); products of coefficient and bound exceed the storage type
+    for k, A in enumerate([a for a in mat.CURATED_A if any(abs(v) > 1 for r in a for v in r)][: (4 if tier == "quick" else 10)]):
+        nc = len(A[0])
+        for part in ("rows", "tighten"):
+            out.append({"A": A, "boxes": ["sym"] + [[0, 1]] * (nc - 1), "part": part, "dtype": ["int16", "int32", "astype-int16"][k % 3]})
     for A in mat.BIG_A:
         nc = len(A[0])
         out.append({"A": A, "boxes": [[0, 1]] * nc if nc == 1 else ["sym"] + [[0, 1]] * (nc - 1), "part": "tighten", "bigcoef": True})
@@ -58,7 +63,9 @@ def instantiations(tier, seed):
 def setup(ctx, ns, spec):
     A = spec["A"]
     nr, nc = len(A), len(A[0])
-    b = [ctx.int("b%d" % i, -2 ** 17, 2 ** 17) for i in range(nr)]
+    # a polyhedron may be STORED in a narrower integer type (dtype= argument / astype): every entry and bound then fits that type
+    bb = 2 ** 15 - 1 if "int16" in str(spec.get("dtype")) else 2 ** 17
+    b = [ctx.int("b%d" % i, -bb, bb) for i in range(nr)]
     los, his = [], []
     for j, bx in enumerate(spec["boxes"]):
         if bx == "sym":
@@ -143,6 +150,8 @@ def run_inst(spec, run):
                 run.region("symbolic-box")
             if spec.get("first") == "plain01":
                 run.region("constant-column-variable-plain")
+            if spec.get("dtype"):
+                run.region("narrow-storage-dtype")
             flat = [v for row in A for v in row]
             if any(v > 1 for v in flat):
                 run.region("coef-magnitude>1-positive")
@@ -206,8 +215,9 @@ def run_inst(spec, run):
                         sv.append(z3.Or(S.term(o["cb"][0][j]) != los[j].e, S.term(o["cb"][1][j]) != his[j].e))
                         sv.append(z3.Or(S.term(o["tb1"][0][j]) != S.term(o["tb2"][0][j]), S.term(o["tb1"][1][j]) != S.term(o["tb2"][1][j])))
                     run.obligation(ctx, "declared-bounds-and-tightening-stable-after-tighten", z3.Or(sv), conc)
+                edge = [l.e == -32768 for l in los if not z3.is_int_value(z3.simplify(l.e))] + [u.e == 32767 for u in his if not z3.is_int_value(z3.simplify(u.e))]
                 run.validate(ctx, conc, lambda m: {"rb": [[S.model_int(m, rb[i][0]), S.model_int(m, rb[i][1])] for i in range(nr)],
-                                                   "nrc": [S.model_int(m, nrc[i]) for i in range(nr)]})
+                                                   "nrc": [S.model_int(m, nrc[i]) for i in range(nr)]}, extremes=z3.Or(edge) if edge else None)
             run.sample({"A": A, "boxes": spec["boxes"], "part": spec["part"], "path_condition": [str(z3.simplify(c)) for c in ctx.pc][:5]})
 
         st = S.explore(fn, on_path, max_paths=20000, wall=1500)
